@@ -401,7 +401,11 @@ func RunOpts(srcDir, dstDir string, rewrite bool) (*Descriptor, error) {
 					break
 				}
 				// (the argument is evaluated exactly once either way: it may have side effects)
-				ins = append(ins, insertion{off: tf.Offset(x.Pos()), text: fmt.Sprintf("if zzSimhook.PoolDrop(&(%s)) { _ = %s } else { ", recv, arg)})
+				eval := "_ = " + arg
+				if pureExpr(call.Args[0]) {
+					eval = "" // nothing to evaluate (and `_ = nil` would not compile)
+				}
+				ins = append(ins, insertion{off: tf.Offset(x.Pos()), text: fmt.Sprintf("if zzSimhook.PoolDrop(&(%s)) { %s } else { ", recv, eval)})
 				ins = append(ins, insertion{off: tf.Offset(x.End()), text: " }"})
 				d.PoolSites++
 			case isGosched(call):
